@@ -81,6 +81,14 @@ func NewDataset(store *Store, id string, internalID uint32, subjectIdentifier st
 
 // StartFullSync Indicates that a full sync is starting
 func (ds *Dataset) StartFullSync() error {
+	// the sync state changes hands under the write lock: writers mark what they store as seen while they hold
+	// it, and a completion holds it from its scan to its last deletion
+	ds.WriteLock.Lock()
+	defer ds.WriteLock.Unlock()
+	return ds.startFullSyncLocked("")
+}
+
+func (ds *Dataset) startFullSyncLocked(fullSyncID string) error {
 	if ds.fullSyncStarted {
 		if ds.fullSyncLease != nil && ds.fullSyncLease.cancel != nil {
 			ds.fullSyncLease.cancel()
@@ -92,15 +100,17 @@ func (ds *Dataset) StartFullSync() error {
 
 	ds.fullSyncStarted = true
 	ds.fullSyncSeen = make(map[uint64]int)
+	ds.fullSyncID = fullSyncID
 
 	return nil
 }
 
 func (ds *Dataset) StartFullSyncWithLease(fullSyncID string) error {
-	if err := ds.StartFullSync(); err != nil {
+	ds.WriteLock.Lock()
+	defer ds.WriteLock.Unlock()
+	if err := ds.startFullSyncLocked(fullSyncID); err != nil {
 		return err
 	}
-	ds.fullSyncID = fullSyncID
 
 	return ds.RefreshFullSyncLease(fullSyncID)
 }
@@ -135,6 +145,8 @@ func (ds *Dataset) RefreshFullSyncLease(fullSyncID string) error {
 				endTime, ok := ctx.Deadline()
 				// time out was the cause
 				now := time.Now()
+				ds.WriteLock.Lock()
+				defer ds.WriteLock.Unlock()
 				// only the lease that is still the dataset's current one may end the sync: a sync id can be
 				// used again (and is empty for job syncs), a lease object cannot
 				if ok && now.After(endTime) && ds.fullSyncLease == lease {
@@ -161,15 +173,40 @@ func (ds *Dataset) ReleaseFullSyncLease(fullSyncID string) error {
 		return errors.New("no active fullsync lease found, can't complete")
 	}
 
-	if ds.fullSyncLease != nil && ds.fullSyncLease.cancel != nil {
+	// the lease of another client's sync, which has replaced this one meanwhile, is not ours to give up
+	if ds.fullSyncLease != nil && ds.fullSyncLease.cancel != nil && ds.fullSyncID == fullSyncID {
 		ds.fullSyncLease.cancel()
 	}
 	return nil
 }
 
+// ErrFullSyncSuperseded is returned when a full sync is to be completed that is no longer the one in progress
+var ErrFullSyncSuperseded = errors.New("the full sync has been superseded, not completing it")
+
 // CompleteFullSync Full sync completed - mark unseen entities as deleted
 func (ds *Dataset) CompleteFullSync(ctx context.Context) error {
+	return ds.completeFullSync(ctx, nil)
+}
+
+// CompleteFullSyncWithID completes the full sync with the given id (empty for a sync started by a job). It
+// fails, and deletes nothing, if that sync is no longer the one in progress: another client's start may have
+// replaced it since the caller checked
+func (ds *Dataset) CompleteFullSyncWithID(ctx context.Context, fullSyncID string) error {
+	return ds.completeFullSync(ctx, &fullSyncID)
+}
+
+func (ds *Dataset) completeFullSync(ctx context.Context, fullSyncID *string) error {
+	// scan, deletions and the release of the sync state are one step for writers (which add to the set of
+	// entities seen) and for a sync that starts meanwhile (which replaces it)
+	ds.WriteLock.Lock()
+	defer ds.WriteLock.Unlock()
+	if fullSyncID != nil && (!ds.fullSyncStarted || ds.fullSyncID != *fullSyncID) {
+		return fmt.Errorf("%w: sync-id %v", ErrFullSyncSuperseded, *fullSyncID)
+	}
 	defer func() {
+		if ds.fullSyncLease != nil && ds.fullSyncLease.cancel != nil {
+			ds.fullSyncLease.cancel()
+		}
 		ds.fullSyncStarted = false
 		ds.fullSyncSeen = make(map[uint64]int) // release sync state
 		ds.fullSyncLease = nil                 // unset lease
@@ -194,7 +231,7 @@ func (ds *Dataset) CompleteFullSync(ctx context.Context) error {
 				deleteBatch = append(deleteBatch, e)
 			}
 			if len(deleteBatch) == 1000 {
-				err := ds.StoreEntities(deleteBatch)
+				err := ds.storeEntitiesLocked(deleteBatch, false)
 				if err != nil {
 					return err
 				}
@@ -210,7 +247,7 @@ func (ds *Dataset) CompleteFullSync(ctx context.Context) error {
 	// store remaining
 	verifhook.Point(ds.store.database, "CompleteFullSync.beforeDeleteBatch")
 	if len(deleteBatch) > 0 {
-		err := ds.StoreEntities(deleteBatch)
+		err := ds.storeEntitiesLocked(deleteBatch, false)
 		if err != nil {
 			return err
 		}
